@@ -1,0 +1,101 @@
+//! Verification hooks.  Only compiled with the `verif` cargo feature; the library behaves exactly
+//! as before without it.  Everything here is harness-controlled, per-thread state.
+
+use std::cell::{Cell, RefCell};
+use std::time::Duration;
+
+thread_local! {
+    static NOW_NS: Cell<u64> = Cell::new(0);
+    static CLOCK_BACKWARDS: Cell<bool> = Cell::new(false);
+    static FILL: RefCell<Option<FillSpec>> = RefCell::new(None);
+}
+
+/// Sets the uptime clock (in nanoseconds) the sessions on this thread observe.
+pub fn set_clock_ns(now: u64) {
+    NOW_NS.with(|x| x.set(now));
+}
+
+/// Makes `elapsed()` report that the clock went backwards.
+pub fn set_clock_backwards(backwards: bool) {
+    CLOCK_BACKWARDS.with(|x| x.set(backwards));
+}
+
+/// Stand-in for `std::time::SystemTime` with the two methods the sessions use.
+#[derive(Clone, Debug)]
+pub struct SystemTime {
+    created_ns: u64,
+}
+
+impl SystemTime {
+    pub fn now() -> SystemTime {
+        SystemTime {
+            created_ns: NOW_NS.with(|x| x.get()),
+        }
+    }
+
+    pub fn elapsed(&self) -> Result<Duration, ()> {
+        let now = NOW_NS.with(|x| x.get());
+        if CLOCK_BACKWARDS.with(|x| x.get()) || now < self.created_ns {
+            return Err(());
+        }
+
+        Ok(Duration::from_nanos(now - self.created_ns))
+    }
+
+    pub fn verif_created_ns(&self) -> u64 {
+        self.created_ns
+    }
+}
+
+/// Deterministic replacement for the handshake's random filler: a pure function of
+/// (seed, buffer length, index), with some bytes of the packet 1 filler (length 1524) forced.
+#[derive(Clone, Debug)]
+pub struct FillSpec {
+    pub seed: u64,
+    pub forced_p1: Vec<(usize, u8)>,
+}
+
+pub fn set_fill(spec: Option<FillSpec>) {
+    FILL.with(|x| *x.borrow_mut() = spec);
+}
+
+/// Returns true if the buffer was filled deterministically.
+pub fn fill(buffer: &mut [u8]) -> bool {
+    FILL.with(|x| match *x.borrow() {
+        None => false,
+        Some(ref spec) => {
+            let len = buffer.len() as u64;
+            for index in 0..buffer.len() {
+                let mut z = spec
+                    .seed
+                    .wrapping_add(len.wrapping_mul(0x9E3779B97F4A7C15))
+                    .wrapping_add((index as u64 + 1).wrapping_mul(0xBF58476D1CE4E5B9));
+                z = (z ^ (z >> 30)).wrapping_mul(0xBF58476D1CE4E5B9);
+                z = (z ^ (z >> 27)).wrapping_mul(0x94D049BB133111EB);
+                z = z ^ (z >> 31);
+                buffer[index] = z as u8;
+            }
+
+            if buffer.len() == 1524 {
+                for &(index, value) in spec.forced_p1.iter() {
+                    buffer[index] = value;
+                }
+            }
+
+            true
+        }
+    })
+}
+
+pub fn push_u32(out: &mut Vec<u8>, value: u32) {
+    out.extend_from_slice(&value.to_be_bytes());
+}
+
+pub fn push_u64(out: &mut Vec<u8>, value: u64) {
+    out.extend_from_slice(&value.to_be_bytes());
+}
+
+pub fn push_bytes(out: &mut Vec<u8>, value: &[u8]) {
+    push_u64(out, value.len() as u64);
+    out.extend_from_slice(value);
+}
